@@ -150,11 +150,15 @@ def op_flag_case(rng, op):
     if op == 'pow' and rng.chance(.5):                 # boundary exponent: x ** 0 is still an op on x
         args = [common.fbits(rng.pick([0.0, -0.0]))]
         leaves = [(leaves[0][0], [abs(v) + 0.5 for v in leaves[0][1]]) + tuple(leaves[0][2:])]
+    zero_bias = op in ('linear', 'conv1d', 'conv2d') and len(leaves) == 3 and rng.chance(.5)
     leaves = [tuple(list(lf[:2]) + [rng.chance(.6) if len(lf) < 4 or lf[3] != 'i64' else False] + list(lf[3:])) for lf in leaves]
+    if zero_bias:        # a zero-initialised bias as the ONLY operand that requires grad (frozen weight, plain input)
+        leaves = [tuple(list(leaves[0][:2]) + [False] + list(leaves[0][3:])), tuple(list(leaves[1][:2]) + [False] + list(leaves[1][3:])),
+                  (leaves[2][0], [0.0] * len(leaves[2][1]), True) + tuple(leaves[2][3:])]
     c = {'op': op, 'leaves': leaves, 'args': args}
     prog = gen_ops.program(c, rng)
     nl = len(leaves)
-    ng = rng.chance(.3)
+    ng = rng.chance(.3) and not zero_bias
     lines = prog[:nl] + (['t ctx new ng', 't ctx enter 0'] if ng else []) + prog[nl:] + (['t ctx exit 0'] if ng else [])
     io = tprog.run_program(lines)
     res = io[nl + (2 if ng else 0)]
@@ -169,7 +173,7 @@ def cases(rng, tier):
     out = []
     import gen_ops
     for op in gen_ops.OPS_BASIC + gen_ops.OPS_NN:
-        for _ in range(6 if tier == 'quick' else 60):
+        for _ in range((14 if op in ('linear', 'conv1d', 'conv2d') else 6) if tier == 'quick' else 60):
             try:
                 lines, stats = op_flag_case(rng, op)
             except Exception:
